@@ -1126,6 +1126,7 @@ func checkC06(p *Prog, r *Report) {
 	ruleOptionalBanner(p, m, r)
 	ruleHAFailClosed(p, r)
 	ruleBannerPatternComplete(p, r)
+	ruleConfigValuesUnedited(p, r)
 	ruleConfigNotRebuilt(p, r)
 	ruleDeferredErrorPreserved(p, r, sessionPkgs)
 	r.rule("R06.10", "The conditions under which an unmanaged-device finding is recorded are the audited ones (tables/guards.tsv rows for C06): ASA/IOS — a banner check is configured and the pattern does not occur in the login banner; Linux — a check is configured and grep of /etc/issue printed nothing; PAN-OS — the display-name of the vsys does not contain 'netspoc'. In particular, without a configured banner check no finding is recorded and approve works normally.")
@@ -1210,6 +1211,7 @@ func checkC11(p *Prog, r *Report) {
 	ruleCompareModeGate(p, m, r)
 	ruleAllowListedCommands(p, m, r, "R06.6")
 	rulePasswordSendsFor(p, r, "R11.p", "C11", "The login dialogue runs in compare mode as well, and what is typed there is not a command from the allow list: a password. It is typed only at audited places under audited conditions (the device has asked for the login or enable password: the dialogue has just matched a password prompt, or the previous answer ends in `password:`; rows of tables/guards.tsv). A password typed as answer to any other question can be taken by the device as a setting (a fresh ASA asks `Enter Password:` / `Repeat Password:` to SET the enable password): the compare run would change the device.")
+	rulePromptTestFresh(p, r, "R11.q", map[string]bool{"cisco": true, "asa": true, "ios": true, "linux": true}, 2)
 	ruleNoReflection(p, r)
 	r.Trusted = append(trustedCallGraph,
 		"the commands in tables/readonly_cmds.tsv do not change device configuration (the ASA terminal-width trio is the property's documented exception)")
@@ -1646,4 +1648,87 @@ func ruleConfigNotRebuilt(p *Prog, r *Report) {
 		}
 	}
 	r.floor("R06.11", "places that create a program.Config", n, 1)
+}
+
+// ruleConfigValuesUnedited: R06.12.
+func ruleConfigValuesUnedited(p *Prog, r *Report) {
+	r.rule("R06.12", "The configured values reach the Config as they stand in the file: in the loader (the function that stores Config.CheckBanner) the content read with os.ReadFile is handed only to the audited operations (tables/config_ops.tsv: split into lines, split into words, the closures that store a value or print a warning). Any other operation on the file's text (a replacement, a cut, a trim) can shorten a value; a marker pattern cut to nothing means `no banner check configured`.")
+	audited := map[string]string{}
+	for _, row := range readTable("config_ops.tsv", 2) {
+		audited[row[0]] = row[1]
+	}
+	n := 0
+	for _, fn := range allModFuncs(p) {
+		if pkgOfFunc(fn) != "program" || fn.Parent() != nil {
+			continue
+		}
+		storesBanner := false
+		for _, g := range treeOf(fn) {
+			for _, gs := range guardSitesOf(p, g) {
+				if gs.Name == "store:program.Config.CheckBanner" {
+					storesBanner = true
+				}
+			}
+		}
+		if !storesBanner {
+			continue
+		}
+		var src []ssa.Value
+		for _, cs := range callsOf(fn) {
+			if cs.Static != nil && rawShortName(cs.Static) == "os.ReadFile" {
+				if v := cs.In.Value(); v != nil && v.Referrers() != nil {
+					for _, ref := range *v.Referrers() {
+						if ex, ok := ref.(*ssa.Extract); ok && ex.Index == 0 {
+							src = append(src, ex)
+						}
+					}
+				}
+			}
+		}
+		if len(src) == 0 {
+			r.fail("R06.12", "anchor|os.ReadFile in "+fnDisplay(fn), p.pos(fn.Pos()), "the loader reads its file with os.ReadFile", "no such call found: re-audit how the configuration is read")
+			continue
+		}
+		t := taintFrom(fn, src)
+		seen := map[string]bool{}
+		for _, cs := range callsOf(fn) {
+			if cs.Static != nil && rawShortName(cs.Static) == "os.ReadFile" {
+				continue
+			}
+			tainted := false
+			for _, a := range cs.In.Common().Args {
+				if t[a] {
+					tainted = true
+				}
+				if el, ok := sliceLitElems(a); ok {
+					for _, e := range el {
+						if t[e] {
+							tainted = true
+						}
+					}
+				}
+			}
+			if !tainted {
+				continue
+			}
+			name := cs.calleeName()
+			for _, c := range calleesOfSite(p, cs) {
+				if cn := closureName(c); cn != "" {
+					name = "closure:" + cn
+				}
+			}
+			if _, isB := cs.In.Common().Value.(*ssa.Builtin); isB {
+				continue
+			}
+			if seen[name] {
+				continue
+			}
+			seen[name] = true
+			n++
+			why, ok := audited[name]
+			r.add("R06.12", "config-op|"+name, p.ipos(cs.In), "the file's text is handed to "+name+" ("+why+")", ok,
+				"an operation on the text of the configuration file that was not audited: it can change or shorten a configured value before it is stored")
+		}
+	}
+	r.floor("R06.12", "operations on the configuration file's text", n, 3)
 }
